@@ -18,6 +18,7 @@ type EnumSpec struct {
 	Pacing int `json:"pacing"`
 	When   int `json:"when"`
 	Stall  int `json:"stall"`
+	Code   int `json:"errno,omitempty"` // ERR packet sweep: the master's error number
 }
 
 // CaseSpec identifies one case: a pure function of these fields and the code.
@@ -155,6 +156,9 @@ func genFaultScenarioEnum(t *Tape, o *GenOpts, prop string, e *EnumSpec) *Scenar
 	}
 	p.BlockedAtStop = e.When%2 == 1 && kind != stopCancel
 	p.StallAfterStop = e.Stall == 1
+	if kind == stopERR && e.Code > 0 {
+		p.Stream.ErrCode = uint16(e.Code)
+	}
 	sc.Attempts = []AttemptPlan{p, cleanAttempt(cs, t.S("policy"))}
 	return sc
 }
